@@ -52,33 +52,97 @@ fn stmts(name: &str) -> Vec<(&'static str, [String; 3])> {
     query!("schema.table alias", Query::select().column(c()).from_as((Alias::new(name), a()), Alias::new(name)).to_owned());
     query!("expr alias", Query::select().expr_as(Expr::col(c()), Alias::new(name)).from(a()).to_owned());
     query!("cte name", Query::select().column(c()).from(a()).to_owned().with(Query::with().cte(CommonTableExpression::new().query(Query::select().column(c()).from(a()).to_owned()).table_name(Alias::new(name)).to_owned()).to_owned()));
+    // --- positions added after seeded changes C04-4 (ALTER TABLE .. DROP FOREIGN KEY escaped twice): every builder that takes a name.
+    // Backends that do not support a form panic; `each!` renders per backend under catch_unwind and skips those.
+    macro_rules! each { ($label:expr, $s:expr) => {{ let s = $s;
+        let r = [std::panic::catch_unwind(std::panic::AssertUnwindSafe(|| s.to_string(MysqlQueryBuilder))).unwrap_or_default(),
+                 std::panic::catch_unwind(std::panic::AssertUnwindSafe(|| s.to_string(PostgresQueryBuilder))).unwrap_or_default(),
+                 std::panic::catch_unwind(std::panic::AssertUnwindSafe(|| s.to_string(SqliteQueryBuilder))).unwrap_or_default()];
+        v.push(($label, r)); }}; }
+    let n = || Alias::new(name);
+    let u = || Alias::new("u");
+    each!("alter add column", Table::alter().table(a()).add_column(ColumnDef::new(n()).integer()).to_owned());
+    each!("alter modify column", Table::alter().table(a()).modify_column(ColumnDef::new(n()).integer()).to_owned());
+    each!("alter rename column (from)", Table::alter().table(a()).rename_column(n(), c()).to_owned());
+    each!("alter rename column (to)", Table::alter().table(a()).rename_column(c(), n()).to_owned());
+    each!("alter drop column", Table::alter().table(a()).drop_column(n()).to_owned());
+    each!("alter table name", Table::alter().table(n()).drop_column(c()).to_owned());
+    each!("alter add foreign key name", Table::alter().table(a()).add_foreign_key(TableForeignKey::new().name(name).from_tbl(a()).from_col(c()).to_tbl(u()).to_col(c())).to_owned());
+    each!("alter add foreign key columns", Table::alter().table(a()).add_foreign_key(TableForeignKey::new().name("fk").from_tbl(a()).from_col(n()).to_tbl(n()).to_col(n())).to_owned());
+    each!("alter drop foreign key", Table::alter().table(a()).drop_foreign_key(n()).to_owned());
+    each!("rename table (from)", Table::rename().table(n(), a()).to_owned());
+    each!("rename table (to)", Table::rename().table(a(), n()).to_owned());
+    each!("truncate table", Table::truncate().table(n()).to_owned());
+    each!("create table name + column", Table::create().table(n()).col(ColumnDef::new(n()).integer()).to_owned());
+    each!("create table foreign key", Table::create().table(a()).col(ColumnDef::new(c()).integer()).foreign_key(ForeignKey::create().name(name).from(a(), n()).to(n(), n())).to_owned());
+    each!("create table primary key", Table::create().table(a()).col(ColumnDef::new(c()).integer()).primary_key(Index::create().name(name).col(n())).to_owned());
+    each!("index column / table", Index::create().name("i").table(n()).col(n()).to_owned());
+    v.push(("index drop table", [Index::drop().name("i").table(n()).to_string(MysqlQueryBuilder), String::new(), String::new()]));   // DROP INDEX names no table on Postgres / SQLite
+    each!("foreign key create columns", ForeignKey::create().name("fk").from(n(), n()).to(n(), n()).to_owned());
+    each!("foreign key drop table", ForeignKey::drop().name("fk").table(n()).to_owned());
+    each!("qualified column", Query::select().column((n(), n())).from(a()).to_owned());
+    each!("schema.table.column", Query::select().column((n(), n(), n())).from((n(), n())).to_owned());
+    each!("table.*", Query::select().column((n(), sea_query::Asterisk)).from(a()).to_owned());
+    each!("join table + alias", Query::select().column(c()).from(a()).join_as(JoinType::InnerJoin, n(), n(), Expr::col((n(), c())).eq(Expr::col((a(), c())))).to_owned());
+    each!("order by / group by column", Query::select().column(c()).from(a()).group_by_col(n()).order_by(n(), Order::Asc).order_by((n(), n()), Order::Desc).to_owned());
+    each!("subquery alias", Query::select().column(c()).from_subquery(Query::select().column(c()).from(a()).to_owned(), n()).to_owned());
+    each!("window name", Query::select().column(c()).from(a()).expr_window_name_as(Expr::col(c()), n(), n()).window(n(), WindowStatement::partition_by(n())).to_owned());
+    each!("insert table + columns", Query::insert().into_table(n()).columns([n()]).values_panic([1.into()]).to_owned());
+    each!("insert returning", Query::insert().into_table(a()).columns([c()]).values_panic([1.into()]).returning_col(n()).to_owned());
+    each!("on conflict columns", Query::insert().into_table(a()).columns([c()]).values_panic([1.into()]).on_conflict(OnConflict::columns([n()]).update_columns([n()]).to_owned()).to_owned());
+    each!("update table + column", Query::update().table(n()).value(n(), 1).and_where(Expr::col(n()).eq(1)).to_owned());
+    each!("delete table", Query::delete().from_table(n()).and_where(Expr::col((n(), n())).eq(1)).to_owned());
+    each!("cte columns", Query::select().column(c()).from(a()).to_owned().with(Query::with().cte(CommonTableExpression::new().query(Query::select().column(c()).from(a()).to_owned()).table_name(n()).column(n()).to_owned()).to_owned()));
+    each!("lock tables", Query::select().column(c()).from(a()).lock_with_tables(LockType::Update, [n()]).to_owned());
+    {
+        use sea_query::extension::postgres::Type;
+        let pg = |s: String| [String::new(), s, String::new()];
+        v.push(("pg type create", pg(Type::create().as_enum(n()).values([Alias::new("x")]).to_string(PostgresQueryBuilder))));
+        v.push(("pg type drop", pg(Type::drop().name(n()).to_string(PostgresQueryBuilder))));
+        v.push(("pg type alter name", pg(Type::alter().name(n()).add_value(Alias::new("x")).to_string(PostgresQueryBuilder))));
+        v.push(("pg type rename to", pg(Type::alter().name(a()).rename_to(n()).to_string(PostgresQueryBuilder))));
+    }
     v.push(("enum cast type", [String::new(), Query::select().expr(Expr::val("x").as_enum(Alias::new(name))).to_owned().to_string(PostgresQueryBuilder), String::new()]));
     v.push(("on conflict excluded", [String::new(), Query::insert().into_table(a()).columns([Alias::new(name)]).values_panic([1.into()]).on_conflict(OnConflict::column(Alias::new(name)).update_column(Alias::new(name)).to_owned()).to_owned().to_string(PostgresQueryBuilder), String::new()]));
     v
 }
 
-pub fn check_one(name: &str) -> Option<Witness> {
+/// every (position, backend) at which `name` does not come back as one identifier token
+pub fn check_all(name: &str) -> Vec<(String, Witness)> {
+    // forms a dialect does not have (the builder drops the clause by design): not identifier positions there
+    const SKIP: [(&str, usize); 2] = [("insert returning", 0), ("lock tables", 2)];
+    let mut out = vec![];
     for (label, sqls) in stmts(name) {
         for (k, sql) in sqls.iter().enumerate() {
-            if sql.is_empty() { continue; }
+            if sql.is_empty() || SKIP.contains(&(label, k)) { continue; }
             let q = if k == 0 { '`' } else { '"' };
             let ids = idents(sql, q);
             if !ids.iter().any(|i| i == name) {
-                return Some(Witness { property: "C04", input: name.to_string(), observed: format!("{label} [{}]: {sql}  -- identifier tokens decode to {ids:?}", ["mysql", "postgres", "sqlite"][k]), expected: format!("an identifier token decoding to {name:?}") });
+                let be = ["mysql", "postgres", "sqlite"][k];
+                out.push((format!("{label}/{be}"), Witness { property: "C04", input: name.to_string(), observed: format!("{label} [{be}]: {sql}  -- identifier tokens decode to {ids:?}"), expected: format!("an identifier token decoding to {name:?}") }));
             }
         }
     }
-    None
+    out
 }
+
+pub fn check_one(name: &str) -> Option<Witness> { check_all(name).into_iter().next().map(|x| x.1) }
 
 pub fn search(_obl: &str) -> Vec<Witness> {
     std::panic::set_hook(Box::new(|_| {}));
-    let mut found = vec![];
+    let mut found: Vec<Witness> = vec![];
+    let mut per_pos: std::collections::HashMap<String, usize> = Default::default();
     let alpha = ['a', '"', '`', ' ', ';', '\'', 'é', '\u{122}', '\u{160}', '\u{2022}'];
     crate::util::strings(&alpha, 3, |s| {
         if s.is_empty() { return false; }
-        if let Ok(Some(w)) = std::panic::catch_unwind(|| check_one(s)) { found.push(w); }
-        found.len() >= 8
+        if let Ok(ws) = std::panic::catch_unwind(|| check_all(s)) {
+            for (pos, w) in ws {
+                // at most 2 witnesses per (position, backend) so that one failing position cannot hide another
+                let c = per_pos.entry(pos).or_insert(0);
+                if *c < 2 { *c += 1; found.push(w); }
+            }
+        }
+        found.len() >= 40
     });
     found
 }
